@@ -946,6 +946,18 @@ func (env *Env) evalCall(e *Expr) Val {
 			}
 		}
 		fail("%s: haskey on non-map", e.Pos)
+	case "mhas", "mget":
+		// map access by raw key code (lets contracts quantify over the keys of a map with struct keys)
+		m := env.eval(e.Args[0])
+		k := env.eval(e.Args[1])
+		mt, ok := m.Ty.Underlying().(*types.Map)
+		if m.K != KRef || !ok {
+			fail("%s: %s on non-map", e.Pos, e.Name)
+		}
+		if e.Name == "mhas" {
+			return mkBool(sAnd("(not (= "+m.T+" 0))", c.mapPresent(env.st, mt, m.T, oneTerm(k, e))))
+		}
+		return c.mapValue(env.st, mt, m.T, oneTerm(k, e))
 	case "keyof":
 		return mkInt(c.keyTerm(env.eval(e.Args[0])), nil)
 	case "visited":
